@@ -131,7 +131,13 @@ func genUpgradeHistory(e *Env, r *Rng, idx int) {
 	newChain := mysim.ChainID
 	newRev := mysim.Rev
 	newH := uint64(hdr0.Header.Height) + 10
+	// the height the client will be at when the upgrade is attempted (B's next block + 1)
+	expectLatest := uint64(b.GetContext().BlockHeight() + 1)
 	switch r.Intn(20) {
+	case 4: // same revision, exactly the client's latest height at upgrade time
+		newChain, newRev, newH = b.ChainID, brev, expectLatest
+	case 5: // same revision, one above / one below it
+		newChain, newRev, newH = b.ChainID, brev, expectLatest+uint64(2*r.Intn(2))-1
 	case 0: // same revision, greater height
 		newChain, newRev = b.ChainID, brev
 	case 1: // revision in the id does not match the height's revision
